@@ -80,7 +80,7 @@ def logical_call(ch: Choices, tok: str, allow_fail: bool = True, allow_notificat
     elif kind == 6:
         method, argmap = 'slow', [('tok', tok)]
     elif kind == 8:
-        method, argmap = 'typed', [('tok', tok), ('n', ch.choice([1, 0, -3, 2 ** 40], 'arg.n'))]
+        method, argmap = 'typed', [('tok', tok), ('n', ch.choice([1, 0, -3, 2 ** 40, 5.0], 'arg.n'))]
         if ch.flag(1, 2, 'call.label'):
             argmap.append(('label', ch.choice(['a', 'b'], 'arg.label')))
     elif kind == 11:
